@@ -57,7 +57,7 @@ func cmdC14(seed uint64, tier, outdir string) {
 	for i := 0; i < nQ; i++ {
 		a, b := vals[r.intn(len(vals))].v, vals[r.intn(len(vals))].v
 		ws := strings.Fields(a)
-		for k := r.intn(6); k > 0; k-- {
+		for k := r.intn(6); k > 0 && len(ws) > 0; k-- {
 			ws[r.intn(len(ws))] = "zzqx"
 		}
 		queries = append(queries, "some leading words "+strings.Join(ws, " ")+" and then "+b)
